@@ -206,8 +206,7 @@ def one_history(ctx, shard, i, rng, idx):
                     args.append("--trans-only")
                 if opts.get("blacklist"):
                     bf = os.path.join(ctx.tmp, f"bl_{shard['sub']}_{i}.bed")
-                    with open(bf, "w") as fh:
-                        fh.writelines(f"{a}\t{b}\t{e}\n" for a, b, e in gen.blacklist_bed(rng, bt, opts["blacklist"]))
+                    gen.write_blacklist_bed(rng, bf, gen.blacklist_bed(rng, bt, opts["blacklist"]))
                     args += ["--blacklist", bf]
                     c.feature("cli-balance:blacklist-bed")
                 ref_cli = ref
